@@ -94,6 +94,7 @@ func runC13(c *fw.Case) {
 		header := rng.Intn(4) > 0
 		names := sh.Names()
 		order := names
+		var orderArg []string
 		var wopts []csv.ToConfigFunc
 		if !header {
 			wopts = append(wopts, csv.Header(false))
@@ -104,7 +105,9 @@ func runC13(c *fw.Case) {
 			for i, p := range perm {
 				order[i] = names[p]
 			}
-			wopts = append(wopts, csv.Columns(append([]string(nil), order...)))
+			// the caller keeps using its slice: it is handed over as it is and compared with a copy afterwards
+			orderArg = append([]string(nil), order...)
+			wopts = append(wopts, csv.Columns(orderArg))
 		}
 		// strict enums with nulls need EmptyNull unless "" is declared
 		for _, col := range sh.Cols {
@@ -120,7 +123,17 @@ func runC13(c *fw.Case) {
 		c.Eval(1)
 		var buf bytes.Buffer
 		var werr error
-		if !c.GuardFail("tocsv", "ToCSV", func() { werr = root.QF.ToCSV(&buf, wopts...) }) {
+		if !c.GuardFail("tocsv", "ToCSV", func() {
+			if orderArg != nil && rng.Intn(2) == 0 {
+				// the same option values write twice; the second output is examined
+				_ = root.QF.ToCSV(&bytes.Buffer{}, wopts...)
+			}
+			werr = root.QF.ToCSV(&buf, wopts...)
+		}) {
+			return
+		}
+		if orderArg != nil && fmt.Sprintf("%q", orderArg) != fmt.Sprintf("%q", order) {
+			c.Fail("argument-changed:Columns", "ToCSV changed the slice passed to csv.Columns from %q to %q", order, orderArg)
 			return
 		}
 		if werr != nil {
@@ -172,7 +185,13 @@ func runC13(c *fw.Case) {
 			ropts = append(ropts, csv.Headers(append([]string(nil), order...)))
 		}
 		var back qframe.QFrame
-		if !c.GuardFail("readcsv", "ReadCSV(ToCSV(f))", func() { back = qframe.ReadCSV(bytes.NewReader(written), ropts...) }) {
+		if !c.GuardFail("readcsv", "ReadCSV(ToCSV(f))", func() {
+			if rng.Intn(2) == 0 {
+				// the same option values (Types, EnumValues, Headers) read twice; the second frame is examined
+				_ = qframe.ReadCSV(bytes.NewReader(written), ropts...)
+			}
+			back = qframe.ReadCSV(bytes.NewReader(written), ropts...)
+		}) {
 			return
 		}
 		if special && root.Shape != "identity" {
